@@ -5,9 +5,9 @@ CONSTANTS
   PermuteModules = FALSE
   MaxP = 6
   Recvs = {"none", "const", "mut"}
-  Rets = {"none", "u32", "ptr", "missing"}
+  Rets = {"none", "u32", "ptr", "missing", "pvoid"}
   Addrs <- TAddrs
-  Seconds = {"none", "distinct", "dup", "inherited"}
+  Seconds = {"none", "distinct", "dup", "inherited", "blockaddr"}
   Bad = {0, 1, 2, 3, 4, 5, 6}
   Singles = {"none", "type", "enum", "opaque"}
   EvalKinds = {"none", "scalar", "ptr", "arr", "struct", "missing", "two"}
